@@ -657,10 +657,26 @@ class HistGen:
                 s['vlan'] = lab['vlan']
         return s
 
+    def image_kw(self, kw):
+        """keywords that are only meaningful in combination: image_ref and image_type are stored as ONE graph property;
+        a lone half (HEAD drops it silently: the call succeeds) or the pair, at random positions among the others"""
+        r = self.rng
+        which = r.choice(['lone_image_ref', 'lone_image_type', 'image_pair'])
+        add = {'lone_image_ref': [['image_ref', ['raw', 'default_ubuntu_20']]],
+               'lone_image_type': [['image_type', ['raw', 'qcow2']]],
+               'image_pair': [['image_ref', ['raw', 'default_ubuntu_20']], ['image_type', ['raw', 'qcow2']]]}[which]
+        kw = list(kw)
+        for x in add:
+            kw.insert(r.randrange(0, len(kw) + 1), x)
+        return kw, which
+
     def f_add_node(self, v, valid):
         r = self.rng
         if valid:
             kw, _ = self.kw()
+            if r.random() < 0.5:
+                kw, which = self.image_kw(kw)
+                return self.s_add_node(kw=kw, fault=which)
             return self.s_add_node(kw=kw)
         faults = ['bad_prop', 'bad_name', 'no_ntype']
         if v.net_nodes():
